@@ -108,16 +108,18 @@ func init() {
 	}
 	propSpecs["C15"] = &PropSpec{
 		ID:       "C15",
-		Patterns: []string{"./internal/ast", "./internal/ast/compiler", "./internal/orderedmap", "./internal/tools"},
+		Patterns: []string{"./internal/ast", "./internal/ast/compiler", "./internal/orderedmap", "./internal/tools", "./internal/yaml", "./internal/veneers/..."},
 		Level:    "proof",
 		Prepare:  func(e *Engine) { e.assumeKindInv = true },
 		Opts: func(e *Engine, key string) VerifyOpts {
 			// panic-freedom of the same functions is C04's claim (type assertions on constant values etc.)
 			return VerifyOpts{OnlyKinds: []string{"pre", "post", "frame", "inv-init", "inv-pres", "cover", "call"}}
 		},
+		Extra: func(e *Engine, tier string) []*FuncResult { return []*FuncResult{e.yamlCarriedResult()} },
 		Assumptions: []string{
 			"scope: the pass-specific callbacks (processObject / processRef / processSchema / Process) of the transformations listed in functions_under_contract; each contract states the documented effect on the selected object/field/reference and that everything else is returned or left as it was (value equality plus write frames)",
-			"the shared Visitor (internal/ast/compiler/visitor.go) that applies these callbacks to every object/type of every schema, and Passes.Process chaining, are NOT verified here: `a callback is invoked once per object/reference and its result stored under the same key` is assumed",
+			"the shared Visitor (internal/ast/compiler/visitor.go) that applies these callbacks is under contract from VisitType down (dispatch by kind, delegation to the registered callback, descent into nested types, results stored in place); VisitSchema / VisitSchemas (objects visited in order, registered objects appended, package / metadata / entry point carried over) and Passes.Process chaining are assumed",
+			"configuration: every field of the YAML description of a transformation is read by its AsCompilerPass method (structural obligation over go/ssa, one per field); what the method does with it is not specified",
 			"matching is specified explicitly: package compared exactly, object and field names with strings.EqualFold (assumed an equivalence coarser than ==)",
 			"appends to trails/comments may write into spare capacity of an existing backing array (`modifies spare-capacity`): assumed unobservable (no IR slice overlaps another slice's spare capacity)",
 			"transformations not covered: prefix_objects_names, fields_set_default (map-ordered), hint_object, omit/omit_fields/duplicate_object filters unless listed in functions_under_contract",
